@@ -88,6 +88,36 @@ func runC18(w *World, r *Report, tier string) {
 		}
 	}
 
+	// R3: the receive loop closes the quit channel on every way out (a deferred close in its entry block)
+	{
+		recv := w.Func("xmpp.(*Client).recv")
+		deferOK := false
+		for _, in := range recv.Blocks[0].Instrs {
+			if d, ok := in.(*ssa.Defer); ok && w.callKey(d) == "builtin.close" {
+				if _, isP := d.Call.Args[0].(*ssa.Parameter); isP {
+					deferOK = true
+				}
+			}
+			if _, isIf := in.(*ssa.If); isIf {
+				break
+			}
+		}
+		if !deferOK {
+			// equivalent: every return of recv is preceded by a close of the parameter on every path
+			isClose := func(in ssa.Instruction) bool {
+				c := asCall(in)
+				if c == nil || w.callKey(c) != "builtin.close" {
+					return false
+				}
+				_, isP := origin(c.Common().Args[0]).(*ssa.Parameter)
+				return isP
+			}
+			ok, _ := mustPass(entryLoc(recv), isReturn, isClose, nil)
+			deferOK = ok
+		}
+		r.Check(deferOK, "R3", "xmpp.(*Client).recv#closes-quit-on-every-exit", w.pos(recv.Pos()), "the receive loop has a way out on which the keepalive's quit channel is not closed (for example the stream-close exit): the keepalive goroutine outlives the session and keeps pinging — also a later session on the same transport", "quit channel closed on every exit of recv")
+	}
+
 	// R4 Ping
 	ping := w.Func("xmpp.(*XMPPTransport).Ping")
 	var writes []ssa.CallInstruction
